@@ -454,6 +454,15 @@ class Client:
             withcontent=True,
             nblines=1,
         )
+        if code == "OK":
+            # The final server data can also be sent with the
+            # completion response: OK (SASL "<base64 data>")
+            m = re.match(r'\(SASL\s+"([^"]*)"\)', data or "", re.IGNORECASE)
+            if m is None:
+                return False
+            return dmd5.check_last_challenge(
+                login, password, m.group(1).encode("utf-8")
+            )
         if code is not None or not challenge:
             return False
         if not dmd5.check_last_challenge(login, password, challenge):
